@@ -76,6 +76,26 @@ def check(ctx):
             ctx.violation("readers used side by side (one per goroutine, each over its own buffer) disturb each other: %s" % badp[0], {"examples": badp[:5]}, key="parallel-values")
         else:
             ctx.traces_validated += 1
+    # ---- a reader made after the decoders have been at work (they are the reader's users: one reader per datagram) starts
+    # from nothing: consumed 0, remaining = the buffer
+    import codec
+    import flowjobs
+    from props import c04, c08
+    for proto, drvp, test, msgs in (
+            ("ipfix", codec.driver(ctx, "ipfix"), codec.P["ipfix"]["jobs"], [c04.tpl_msg("ipfix", 256, 1), c04.data_msg("ipfix", 256), [0, 10, 0, 16] + [0] * 12, [0, 10, 0, 40, 1, 2], c04.data_msg("ipfix", 256)]),
+            ("v9", codec.driver(ctx, "v9"), codec.P["v9"]["jobs"], [c04.tpl_msg("v9", 256, 1), c04.data_msg("v9", 256), [0, 9, 0, 0] + [0] * 16, [0, 9, 0, 1, 5], c04.data_msg("v9", 256)]),
+            ("netflow5", c08.driver(ctx), "TestVerifNF5Jobs", [[0, 5, 0, 1] + [3] * 20 + [7] * 48, [0, 5, 0, 2] + [3] * 20 + [7] * 50, [0, 5], [0, 5, 0, 1] + [4] * 20 + [8] * 48])):
+        rr = flowjobs.run_jobs(ctx, drvp, test, [{"msgs": [{"exp": [10, 0, 0, 1], "buf": m} for m in msgs]}], tag="c19after_" + proto)[0]
+        ctx.count(["reader-after-decoders", proto])
+        if rr.get("skipped") or "killed" in rr:
+            raise vlib.Infra("decode driver failed in the reader-after-decoders stage (%s)" % proto)
+        stale = [i for i, x in enumerate(rr["res"]) if x.get("reader_fresh") is False]
+        if stale:
+            ctx.violation("a reader made after the %s decoder had handled %d datagram(s) does not start from nothing: consumed + remaining "
+                          "is not the buffer's length from the first operation on" % (proto, stale[0] + 1), {"proto": proto, "after_datagrams": stale[0] + 1},
+                          key="stale-reader")
+        else:
+            ctx.traces_validated += 1
     # ---- binding B
     ntr, nops = (600, 60) if thorough else (120, 40)
     tout = os.path.join(d, "trace.ndjson")
